@@ -31,6 +31,8 @@ rule("C11.i", "time zone case analysis of dates read back from JSON: " + ZONE_CA
 rule("C19.i", "the boundaries of the coarse intervals of a sub-grid span its whole window: the date range is opened with the window start "
               "and closed with the window end when it does not reach them (anchored frequencies, a window that is not a multiple of "
               "the coarse step) - no fine step is lost", floor=1, props=["C19", "C13"])
+rule("C19.j", "the points of a grid built from start / end / freq begin at the grid start: the date range is opened with the start when it "
+              "does not begin there (calendar-anchored frequencies 'W', 'MS' ... begin at the first anchor after the start)", floor=1)
 NO_STRIP = "a date that reaches the zone case analysis has not passed a conversion that silently drops its zone (.values on a frame " \
            "column, a datetime64 cast, tz_localize(None)) - neither in the function nor where the constructor stored it"
 rule("C19.h", "interval data and asset windows: " + NO_STRIP, floor=2)
@@ -192,7 +194,7 @@ def _zone_cases(ctx):
     return counts
 
 
-@analysis("intervals", ["C19.a", "C19.b", "C19.c", "C19.e", "C19.g", "C15.g", "C20.h", "C11.i", "C19.h", "C20.i", "C15.h", "C19.i"])
+@analysis("intervals", ["C19.a", "C19.b", "C19.c", "C19.e", "C19.g", "C15.g", "C20.h", "C11.i", "C19.h", "C20.i", "C15.h", "C19.i", "C19.j"])
 def run(ctx):
     p = ctx.p
     zc = _zone_cases(ctx)
@@ -411,3 +413,18 @@ def run(ctx):
                    "inactive there (hourly grid of 84 h with a daily asset: 72 steps covered; two weeks with 'W': one of two)" % (seq_name or au.U(seq)),
                    node=lp, ok_detail="opened with the window start and closed with the window end")
     ctx.require(n_c >= 8, "fewer than 8 sub-grid attribute assignments found in Timegrid.__init__")
+    # ---- C19.j: the main grid's own range
+    main_ranges = [st for st in au.walk_stmts(init.body) if isinstance(st, ast.Assign) and isinstance(st.targets[0], ast.Name)
+                   and isinstance(st.value, ast.Call) and au.method_name(st.value) == "date_range"
+                   and au.U(au.kwarg(st.value, "start") or ast.Constant(None)) == "self.start" and au.U(au.kwarg(st.value, "freq") or ast.Constant(None)) == "self.freq"]
+    if not main_ranges:
+        ctx.ob("C19.j", init, "range of the grid's own time points", None, "date_range(start=self.start, ..., freq=self.freq) not found")
+    for st in main_ranges:
+        nm = st.targets[0].id
+        opened = any(isinstance(x, ast.Call) and isinstance(x.func, ast.Attribute) and x.func.attr == "insert" and au.base_name(x.func) == nm
+                     and x.args and au.const_num(x.args[0]) == 0 and "start" in au.U(x) for s2 in au.walk_stmts(init.body) if s2.lineno > st.lineno
+                     for x in au.walk_own(s2))
+        ctx.ob("C19.j", init, "the grid's points begin at its start", opened,
+               "the points are date_range(start, end, freq) as it comes: for a calendar-anchored frequency the first point is the first "
+               "anchor after the start (grid from Jan 1 with 'W': first point Jan 3; from Jan 15 with 'MS': Feb 1) - the steps before it "
+               "do not exist, whatever lies there (prices, asset windows, orders) is silently ignored", node=st)
